@@ -14,6 +14,7 @@ type VerifRecord struct {
 	IsSC     bool
 	Voted    []string // nodes in `voted`
 	Ballots  []string // nodes in `ballots`
+	Expels   []string // nodes whose ballot carried expels (`expels`)
 	Finished bool
 }
 
@@ -31,6 +32,10 @@ func (box *Ballotbox) VerifRecords() []VerifRecord {
 
 		for k := range vr.ballots {
 			r.Ballots = append(r.Ballots, k)
+		}
+
+		for k := range vr.expels {
+			r.Expels = append(r.Expels, k)
 		}
 
 		rs = append(rs, r)
